@@ -85,6 +85,7 @@ struct WMon {
     reload_windows: Vec<(u64, u64)>,
     v6_paths: Vec<usize>,
     c19_off: bool,
+    timeout_ms: u64,
 }
 
 /// An accepted reload whose application (at the next housekeeping tick) is awaited.
@@ -280,6 +281,15 @@ impl WMon {
 
     fn on_new_socket(&mut self, now: u64, path: usize, v6: bool, out: &mut MonOut) {
         let heard_recently = self.heard.get(&path).is_some_and(|h| now.saturating_sub(*h) < 1500);
+        // C08 on the wire: no send fault is ever injected in whole-loop runs, so a registered
+        // uplink's socket is replaced only after it has heard nothing for the configured timeout
+        if let (Some(h), true) = (self.heard.get(&path), self.registered.contains_key(&path)) {
+            let silent = now.saturating_sub(*h);
+            out.probe("w.c08.socket_replaced_on_registered_link");
+            if silent + 200 < self.timeout_ms && !self.reload.as_ref().is_some_and(|r| r.removed.contains(&path) || r.added.contains(&path)) {
+                out.violate("C08.teardown_cause", "healthy_link_whole_loop", now, format!("path {path}: socket replaced although the uplink was heard {silent} ms ago (timeout {} ms, no send fault injected; real loop)", self.timeout_ms));
+            }
+        }
         match self.reload.as_mut() {
             Some(r) if r.added.contains(&path) => {
                 *r.binds_seen.entry(path).or_insert(0) += 1;
@@ -492,6 +502,7 @@ async fn run(plan: &LPlan, want_excerpt: bool) -> RunOutcome {
     };
     let mut env = Env::new(plan);
     let mut mon = WMon::default();
+    mon.timeout_ms = plan.cfg.conn_timeout_ms;
     mon.active = seam.with(|s| plan.initial_ips().iter().map(|ip| s.path_for_ip(*ip)).collect());
     let client_addr: SocketAddr = "127.0.0.1:40000".parse().unwrap();
     let start_ms = plan.time_base_ms;
